@@ -61,6 +61,9 @@ func loadShared() (*sharedInputs, error) {
 	for i := range s.pal {
 		s.pal[i] = color.RGBA{uint8(3 * i), uint8(255 - 2*i), uint8(i), 0xff}
 	}
+	// entries that are not valid premultiplied colours: gradient-shaped, and alpha below a channel
+	s.pal[7] = color.RGBA{0x03, 0x4a, 0x8a, 0x00}
+	s.pal[40] = color.RGBA{0x90, 0x10, 0x10, 0x80}
 	s.freshShareables()
 	return s, nil
 }
@@ -250,6 +253,10 @@ func allPipelines(s *sharedInputs) []pipeline {
 				if i%32 == 0 {
 					gate()
 				}
+				// the helpers read the SHARED palette through the pointer they are given (they have no business writing to it)
+				p0 := ivg.PaletteIndexColor(uint8(i)).Resolve(&s.pal, &creg)
+				p1 := ivg.BlendColor(uint8(i), 0x80|uint8(i%64), 0x80|7).Resolve(&s.pal, &creg)
+				out = append(out, p0.R, p0.G, p0.B, p0.A, p1.R, p1.G, p1.B, p1.A)
 				pal := s.pal
 				c := ivg.BlendColor(uint8(i), uint8(i), uint8(255-i)).Resolve(&pal, &creg)
 				out = append(out, c.R, c.G, c.B, c.A)
